@@ -61,7 +61,9 @@ impl Fault {
 }
 
 fn idx_class(v: i128) -> &'static str {
-    if v >= 1 << 32 {
+    if v.abs() >= (1 << 63) - 4 {
+        "beyond-63-bits-in-13-digits"
+    } else if v >= 1 << 32 {
         "wraps-2^32"
     } else if v <= -(1 << 32) + 3 {
         "wraps-minus-2^32"
@@ -239,12 +241,12 @@ fn structural_faults(b: &Base) -> Vec<Fault> {
             }
             if let Some((s, _, _, n)) = src {
                 let len = b.ns as i128;
-                for v in [len, len + 1, -1, -len - 1, (1i128 << 32) + s, -(1i128 << 32) + s, (1i128 << 33) + s] {
+                for v in [len, len + 1, -1, -len - 1, (1i128 << 32) + s, -(1i128 << 32) + s, (1i128 << 33) + s, (1i128 << 63) + s, -(1i128 << 63) + s, (1i128 << 63) + 1 + s, (1i128 << 62) + s] {
                     f.push(Fault::SourceIdx(li, si, v));
                 }
                 if let Some(n) = n {
                     let len = b.nn as i128;
-                    for v in [len, len + 1, -1, -len - 1, (1i128 << 32) + n, -(1i128 << 32) + n, (1i128 << 33) + n] {
+                    for v in [len, len + 1, -1, -len - 1, (1i128 << 32) + n, -(1i128 << 32) + n, (1i128 << 33) + n, (1i128 << 63) + n, -(1i128 << 63) + n, (1i128 << 63) + 1 + n, (1i128 << 62) + n] {
                         f.push(Fault::NameIdx(li, si, v));
                     }
                 }
@@ -381,7 +383,7 @@ pub fn run(run: &mut Run) -> Finish {
 
     Finish {
         level: "fault_enumeration",
-        rule: "E1 fault enumeration on the real decoder. Bases: every well-formed document with <= 2 lines x <= 2 segments of 1/4/5 fields for all (sources, names) array sizes in {0,1,2}^2 (each base must decode and all its references resolve). Faults, each at every site where it applies: arity 2/3/6/7; source and name running index set to len, len+1, -1, -len-1, 2^32+valid, -2^32+valid, 2^33+valid (other segments keep their absolute values); continuation bit on the segment's last digit; a segment turned into a 4-/5-field one although the sources / names array is empty; a field re-encoded with 14 and 15 digits; every non-alphabet ASCII byte except , ; and fifteen multi-byte characters (incl. code points whose low byte is a base64 digit) inserted at every offset. Then every ordered pair of structural faults at different sites and structural x foreign pairs on the two-segment bases. Oracle: decode_slice returns Err. Distinct by construction; every faulty document is non-trivial; class = fault type(s).".into(),
+        rule: "E1 fault enumeration on the real decoder. Bases: every well-formed document with <= 2 lines x <= 2 segments of 1/4/5 fields for all (sources, names) array sizes in {0,1,2}^2 (each base must decode and all its references resolve). Faults, each at every site where it applies: arity 2/3/6/7; source and name running index set to len, len+1, -1, -len-1, 2^32+valid, -2^32+valid, 2^33+valid, 2^62+valid, +-2^63+valid (13 digits, the longest legal value) (other segments keep their absolute values); continuation bit on the segment's last digit; a segment turned into a 4-/5-field one although the sources / names array is empty; a field re-encoded with 14 and 15 digits; every non-alphabet ASCII byte except , ; and fifteen multi-byte characters (incl. code points whose low byte is a base64 digit) inserted at every offset. Then every ordered pair of structural faults at different sites and structural x foreign pairs on the two-segment bases. Oracle: decode_slice returns Err. Distinct by construction; every faulty document is non-trivial; class = fault type(s).".into(),
         assumptions: vec!["JSON escaping of inserted characters is done by serde_json, so the decoder sees the raw character in the mappings string".into()],
         coverage_extra: json!({"bases": nb, "two_segment_bases": n2, "foreign_characters": fc.len()}),
     }
